@@ -322,7 +322,7 @@ func originsAsPreds(v ssa.Value) []OPred {
 	var out []OPred
 	for _, o := range originsOf(v) {
 		o := o
-		out = append(out, func(x Origin) bool { return x == o })
+		out = append(out, func(x Origin) bool { return x.same(o) })
 	}
 	return out
 }
